@@ -241,9 +241,7 @@ theorem send_bytes (k : Kcp) (buffer : Bytes) (hm : 0 < k.mss.toNat)
         by_cases c3 : sendCount k buffer > 255
         · rw [if_pos c3] at hse
           rw [hse]
-          simp only []
-          rw [sendQ1_bytes]
-          rfl
+          simp
         · rw [if_neg c3] at hse
           by_cases c4 : min (sendRest k buffer).length k.mss.toNat > mtuLimit
           · rw [if_pos c4] at hse; rw [hse] at hp; cases hp
